@@ -306,72 +306,7 @@ SIG_TEXTS = [
 ]
 
 
-def _sig_state(sig):
-    """Deep view of a signature; holds every object so identities stay valid."""
-    params = tuple(sig.parameters.values())
-    pv = []
-    for p in params:
-        ps = getattr(p, 'sources', None)
-        pd = getattr(p, 'source_depths', None)
-        pv.append((p, p.name, p.kind, p.default, p.annotation,
-                   ps, tuple(ps) if isinstance(ps, list) else None,
-                   pd, tuple(sorted(((id(k), v) for k, v in pd.items()))) if isinstance(pd, dict) else None,
-                   getattr(p, 'upgraded_annotation', None)))
-    src = sig.sources
-    lists = {}
-    for k, v in src.items():
-        if k == '+depths':
-            continue
-        lists[k] = (v, tuple(v))
-    depths = src.get('+depths')
-    return dict(params=params, pv=pv, src=src, keys=tuple(src.keys()), lists=lists,
-                depths=depths, depth_items=tuple(depths.items()) if depths is not None else None,
-                ret=sig.return_annotation, uret=getattr(sig, 'upgraded_return_annotation', None))
-
-
-def _same(a, b):
-    return len(a) == len(b) and all(x is y for x, y in zip(a, b))
-
-
-def _sig_changed(sig, st):
-    """Describe how sig differs from its state, or None."""
-    params = tuple(sig.parameters.values())
-    if not _same(params, st['params']):
-        return 'parameter tuple changed'
-    for p, (p0, name, kind, default, annotation, ps, psv, pd, pdv, ua) in zip(params, st['pv']):
-        if p.name != name or p.kind != kind or p.default is not default or p.annotation is not annotation:
-            return 'parameter {0} fields changed'.format(name)
-        if getattr(p, 'sources', None) is not ps:
-            return 'parameter {0}.sources replaced'.format(name)
-        if isinstance(ps, list) and not _same(tuple(ps), psv):
-            return 'parameter {0}.sources list mutated'.format(name)
-        if getattr(p, 'source_depths', None) is not pd:
-            return 'parameter {0}.source_depths replaced'.format(name)
-        if isinstance(pd, dict) and tuple(sorted(((id(k), v) for k, v in pd.items()))) != pdv:
-            return 'parameter {0}.source_depths mutated'.format(name)
-        if getattr(p, 'upgraded_annotation', None) is not ua:
-            return 'parameter {0}.upgraded_annotation replaced'.format(name)
-    if sig.sources is not st['src']:
-        return 'sources map replaced'
-    if tuple(sig.sources.keys()) != st['keys']:
-        return 'sources map keys changed'
-    for k, (lst, content) in st['lists'].items():
-        if sig.sources[k] is not lst:
-            return 'sources list replaced'
-        if not _same(tuple(lst), content):
-            return 'sources list mutated'
-    if sig.sources.get('+depths') is not st['depths']:
-        return '+depths replaced'
-    if st['depths'] is not None:
-        items = tuple(st['depths'].items())
-        if len(items) != len(st['depth_items']) or any(
-                a[0] is not b[0] or a[1] != b[1] for a, b in zip(items, st['depth_items'])):
-            return '+depths mutated'
-    if sig.return_annotation is not st['ret']:
-        return 'return annotation changed'
-    if getattr(sig, 'upgraded_return_annotation', None) is not st['uret']:
-        return 'upgraded return annotation changed'
-    return None
+from sim.snapshot import sig_state as _sig_state, sig_changed as _sig_changed, _same   # noqa: E402
 
 
 def _shared(result_sources, operand):
